@@ -11,6 +11,9 @@ Tie (this check): harness/iindex_hist.py `run_check(ctx, "C07")` - the C06 histo
     and from_array is run on every dense array a history reaches (`chk07from`), also WITH a mapping (injective /
     many-to-one onto a non-common value with interleaving rows / onto the common; with and without counts), also on
     fresh small arrays.
+  * the in-Coq tie is small-scope (N <= 8 initial rows); a SCALE stream (histories from sparse indexes of 130-400 rows with
+    50-200-row appends and out-of-order multi-value updates; a few one-step cases on arrays of more than 65 536 cells) is
+    always judged by the model-free oracles and compared inside Coq only while the literals stay small.
 Notes: notes/iindex-harness.md."""
 from .. import iindex_hist
 
